@@ -61,24 +61,50 @@ theorem hasher_spec (H : Bytes → Bytes) (hnc : NoColl H) (gen limit : Nat) (wi
     HashSpec H st withDb child t (hashL H gen limit withDb l (!child) st) :=
   hashL_spec hnc gen limit withDb t ht child l st hs habs
 
+/-- **the disk path**: `decodeNode` on the RLP blob the hasher wrote for a minimal-form node
+    (children embedded when < 32 bytes, otherwise 32-byte hash references; hex-prefix keys) yields
+    exactly the live node `expandNode` builds from the collapsed node kept in the memory cache.
+    Hypotheses: hashes are 32 bytes long, the blob is shorter than 2^64 bytes. -/
+theorem decodeNode_encodeNode (H : Bytes → Bytes) (h32 : ∀ x, (H x).length = 32) (gen : Nat) (t : Node)
+    (ht : WF t) (hsz : (enc H t).length < 256 ^ 8) (hh : Option Bytes) (f : Nat) (rest : Bytes)
+    (hf : 20 * (enc H t).length + 20 ≤ f) :
+    decodeNode gen f hh (enc H t ++ rest) = expandNode gen hh (collapse H t) := by
+  rw [← (encC_collapse H t ht).1]
+  exact decodeNode_collapse H h32 gen t ht hsz hh f rest hf
+
+/-- …so resolving from disk and resolving from the memory cache agree -/
+theorem disk_path_eq_memory_path (H : Bytes → Bytes) (h32 : ∀ x, (H x).length = 32) (st : Store) (gen : Nat)
+    (t : Node) (ht : WF t) (hsz : (enc H t).length < 256 ^ 8) (h : Bytes)
+    (hlk : st.lookup h = some (collapse H t)) : resolveHashDisk st gen h = resolveHash st gen h :=
+  resolveHashDisk_eq H h32 st gen t ht hsz h hlk
+
+-- non-vacuity: the executable Keccak-256 returns 32 bytes; a one-leaf trie is small
+example : ∀ x, (Keccak.keccak256 x).length = 32 := by intro x; simp [Keccak.keccak256, Keccak.laneBytes]
+example (H : Bytes → Bytes) : WF (run [.upd [1] [2]]) ∧ (enc H (run [.upd [1] [2]])).length < 256 ^ 8 := by
+  have hr : run [.upd [1] [2]] = .short [0, 1, 16] (.value [2]) := rfl
+  refine ⟨(C02.run_wf _).resolve_left (by rw [hr]; simp), ?_⟩
+  have : (enc H (run [.upd [1] [2]])).length = 5 := by rw [hr]; rfl
+  rw [this]; decide
+
 /-- one step of the two machines: same observation, simulation preserved -/
 theorem live_step_refines (H : Bytes → Bytes) (hok : HashOK H) (F : Nat) (lt : LTrie) (t : Node)
-    (h : Sim H lt t) (hF : 2 * height t + 2 ≤ F) (op : Op) :
+    (h : Sim H lt t) (hF : 2 * height t + 2 ≤ F) (hsz : (enc H t).length < 256 ^ 8) (op : Op) :
     (lstep H F lt op).2 = (nstep H t op).2 ∧ Sim H (lstep H F lt op).1 (nstep H t op).1 :=
-  sim_step hok F h hF op
+  sim_step hok F h hF hsz op
 
 /-- **unloading, reloading and caching are unobservable**: over any history of updates, deletes,
     reads, `Hash`, `Commit`, reopen, cache-limit changes and iterations, the live trie answers
     exactly what the fully loaded trie answers.  The iteration fuel only has to cover the longest
     key written (`4 * maxKeyBytes + 6`; the driver uses 8200). -/
 theorem live_run_observes (H : Bytes → Bytes) (hok : HashOK H) (F : Nat) (ops : List Op)
-    (hF : 4 * maxKeyBytes ops + 6 ≤ F) :
+    (hF : 4 * maxKeyBytes ops + 6 ≤ F)
+    (hsz : ∀ pre, pre <+: ops → (enc H (run pre)).length < 256 ^ 8) :
     (lrun H F LTrie.empty ops).2 = (nrun H .nil ops).2 ∧ Sim H (lrun H F LTrie.empty ops).1 (run ops) := by
   have := lrun_sim hok F ops LTrie.empty .nil (sim_empty H) (fun pre hp => by
     have h1 := height_run_le pre
     have h2 := maxKeyBytes_prefix hp
     show 2 * height (run pre) + 2 ≤ F
-    omega)
+    omega) hsz
   rw [nrun_nil_state] at this
   exact this
 
@@ -88,11 +114,12 @@ theorem loaded_machine_state (H : Bytes → Bytes) (ops : List Op) : (nrun H .ni
 
 /-- reads on the live trie return the last write (via `Props.C02.reads_last_write`) -/
 theorem live_reads_last_write (H : Bytes → Bytes) (hok : HashOK H) (F : Nat) (ops : List Op) (k : Bytes)
-    (hF : 4 * maxKeyBytes ops + 6 ≤ F) :
+    (hF : 4 * maxKeyBytes ops + 6 ≤ F)
+    (hsz : ∀ pre, pre <+: ops → (enc H (run pre)).length < 256 ^ 8) :
     (lstep H F (lrun H F LTrie.empty ops).1 (.get k)).2 = .value (finalMap ops k) := by
-  obtain ⟨_, hs⟩ := live_run_observes H hok F ops hF
+  obtain ⟨_, hs⟩ := live_run_observes H hok F ops hF hsz
   have hh := height_run_le ops
-  have := (sim_step hok F hs (by omega) (.get k)).1
+  have := (sim_step hok F hs (by omega) (hsz ops (List.prefix_refl _)) (.get k)).1
   rw [this]
   simp only [nstep]
   rw [C02.reads_last_write]
@@ -100,14 +127,17 @@ theorem live_reads_last_write (H : Bytes → Bytes) (hok : HashOK H) (F : Nat) (
 /-- the root the live trie reports is history-independent and equals the loaded model's root
     (hence the Yellow Paper root, `Props.C02.root_eq_yellow_paper`) -/
 theorem live_root (H : Bytes → Bytes) (hok : HashOK H) (F : Nat) (ops : List Op)
-    (hF : 4 * maxKeyBytes ops + 6 ≤ F) :
+    (hF : 4 * maxKeyBytes ops + 6 ≤ F)
+    (hsz : ∀ pre, pre <+: ops → (enc H (run pre)).length < 256 ^ 8) :
     (lstep H F (lrun H F LTrie.empty ops).1 .hash).2 = .root (rootHash H (run ops)) ∧
     (lstep H F (lrun H F LTrie.empty ops).1 .commit).2 = .root (rootHash H (run ops)) ∧
-    (lstep H F (lrun H F LTrie.empty ops).1 .reopen).2 = .root (rootHash H (run ops)) := by
-  obtain ⟨_, hs⟩ := live_run_observes H hok F ops hF
+    (lstep H F (lrun H F LTrie.empty ops).1 .reopen).2 = .root (rootHash H (run ops)) ∧
+    (lstep H F (lrun H F LTrie.empty ops).1 .dbcommit).2 = .root (rootHash H (run ops)) := by
+  obtain ⟨_, hs⟩ := live_run_observes H hok F ops hF hsz
   have hh := height_run_le ops
-  exact ⟨(sim_step hok F hs (by omega) .hash).1, (sim_step hok F hs (by omega) .commit).1,
-    (sim_step hok F hs (by omega) .reopen).1⟩
+  have hz := hsz ops (List.prefix_refl _)
+  exact ⟨(sim_step hok F hs (by omega) hz .hash).1, (sim_step hok F hs (by omega) hz .commit).1,
+    (sim_step hok F hs (by omega) hz .reopen).1, (sim_step hok F hs (by omega) hz .dbcommit).1⟩
 
 -- non-vacuity of `Sim`: the empty live trie stands for the empty trie
 example (H : Bytes → Bytes) : Sim H LTrie.empty .nil := sim_empty H
